@@ -212,9 +212,50 @@ def const_(run, vm):
         run.violated('CONST', 'gralloc overflow test', ga[0].where() if ga else '', 'gralloc<T> no longer checks n * sizeof(T) for overflow before malloc')
 
 
+def namebound(run, fx):
+    """NameTable::getName reads the string of the chosen record at m_nameData + offset, length bytes, both taken from the font at
+    query time: the read pointer is formed only under a dominating test  offset + length <= m_nameDataLength  on the full-width
+    sum.  Compared as linear forms (rules/linear.py), in which a sum truncated to a narrower type is a different, opaque value."""
+    from . import linear
+    fn = fx.one('graphite2::NameTable::getName')
+    n = 0
+    for _, e in fn.elements():
+        if e['k'] != 'BinaryOperator' or e.get('op') != '+' or '*' not in (e.get('t') or ''):
+            continue
+        terms, c0 = linear.lin(fn, e)
+        base = [t for t in terms if t.endswith('m_nameData')]
+        if len(base) != 1 or terms[base[0]] != 1:
+            continue
+        off = {t: c for t, c in terms.items() if t != base[0]}
+        if not off:
+            continue
+        n += 1
+        inst = 'name string read pointer @%s' % e.get('ln')
+        good, seen = None, []
+        for cond, pol in dom.edge_guards(fn, fn.block_of[e['i']]):
+            for at, p in dom.atoms(fn, cond, pol):
+                for t, c in linear.lower_bounds(fn, at, p):
+                    lim = [k_ for k_ in t if k_.endswith('m_nameDataLength')]
+                    if len(lim) == 1 and t[lim[0]] == 1:
+                        seen.append(fn.render(fn.strip(at)))
+                        rest = {k_: c_ for k_, c_ in t.items() if k_ != lim[0]}
+                        extra = {k_: c_ for k_, c_ in rest.items() if k_ not in off}
+                        if all(rest.get(k_) == -c_ for k_, c_ in off.items()) and len(extra) == 1 and list(extra.values()) == [-1] and c <= c0 * -1 + 0:
+                            good = (fn.render(fn.strip(at)), list(extra)[0])
+        if good:
+            run.held('VALIDATOR', inst, fn.loc(e), 'dominated by `%s`: offset + %s <= m_nameDataLength on the untruncated sum' % good)
+        else:
+            run.violated('VALIDATOR', inst, fn.loc(e), 'NameTable::getName forms the read pointer m_nameData + (%s) without a dominating test that this offset plus the string '
+                         'length stays within m_nameDataLength (tests of m_nameDataLength seen: %s; a sum held in a 16-bit local wraps and is not that test): a name record '
+                         'with offset + length beyond the table is read out of bounds' % (' + '.join(sorted(off)), seen or 'none'))
+    if n < 1:
+        run.broken('VALIDATOR', 'name string read pointer', 'no m_nameData + offset pointer found in NameTable::getName', fn.where())
+
+
 def run(run):
     vm = R.get_vm(run)
     fx = vm.fx
+    namebound(run, fx)
     from . import c13
     c13.narrowread(run, fx)
     validators.check(run, fx, 'VALIDATOR')
